@@ -520,6 +520,9 @@ func familyDebug(args []string) int {
 	for k, v := range r.CompileFail {
 		fmt.Printf("compile failure %s: %.300s\n", k, v)
 	}
+	for k, v := range r.GenFail {
+		fmt.Printf("gen failure %s: %.300s\n", k, v)
+	}
 	for _, h := range r.HarnessErr {
 		fmt.Printf("harness error: %s\n", h)
 	}
